@@ -348,6 +348,11 @@ def run_case(case):
             except Exception as e:
                 raise Violation("reinstall-raised", f"{where}: set_environment(current environment) raised {type(e).__name__}: {e}")
             labels.add("environment-installed-again")
+        elif kind == "complete":
+            # the model is marked complete (Model.complete()): it no longer steps, but its environment and listings stay in use -
+            # agents are still taken out and put in while results are collected
+            models[mi].complete()
+            labels.add("model-completed-then-used")
         else:
             raise InvalidCase(op)
         look = ("every", "every", "sparse", "end")[len(case["ops"]) % 4]      # how often the listings are inspected between operations
@@ -382,6 +387,7 @@ def strategy(tier):
         st.fixed_dictionaries({"op": st.just("leave"), "k": k}),
         st.fixed_dictionaries({"op": st.just("reinstall"), "m": m}),
         st.fixed_dictionaries({"op": st.just("stray_deregister"), "m": m, "other": st.integers(0, 2), "k": k}),
+        st.fixed_dictionaries({"op": st.just("complete"), "m": m}),
     )
     init = st.fixed_dictionaries({"comps": st.sampled_from([0, 0, 1, 1, 1, 2, 3, 4, 5, 7, 8, 9, 12, 15, 16, 17, 24, 31]), "joined": st.booleans(), "pos": pos})
     from vf.fixtures import near_pow2
